@@ -26,3 +26,16 @@ Definition states21 (tr : list tstep) : list (N * N) :=
 Definition recvs21 (tr : list tstep) : list (N * N) :=
   map (fun st => (match st_snap (fst st) with Some sn => sn_recv sn | None => 0 end,
                   match st_snap (snd st) with Some sn => sn_recv sn | None => 0 end)) tr.
+
+(* ---- a concrete instance of the hypotheses of c21_nofault_partial ------------------------------------------------- *)
+From F8 Require Import C21.Pair.
+Fixpoint tp_after (t : tp) (l : list sop) : tp :=
+  match l with
+  | [] => t
+  | o :: l' => tp_after (fst (snap2 (run_sop mini dec_mini [] t o))) l'
+  end.
+(* both sessions created, Logon exchange done *)
+Definition t_logged : tp := tp_after (fst (snap2 (tp_init mini dec_mini []))) [SDeliver].
+Definition m_D : msg := match build_msg mini spec_D with Some m => m | None => new_msg [] end.
+Definition sops_w : list sop := [SI_D; SA_D; SDeliverA; SI_D; SA_D; SDeliverI; SI_D].
+Definition fops_w : list fop := [FSendI m_D; FSendA m_D; FDeliverA; FSendI m_D; FSendA m_D; FDeliverI; FSendI m_D].
